@@ -6,6 +6,8 @@ use crate::engine::{Cx, Property, Tier};
 use crate::ensure_p;
 use crate::world::*;
 use proptest::prelude::*;
+#[allow(unused_imports)]
+use crate::prop_oneof;
 use serde::{Deserialize, Serialize};
 use soroban_sdk::testutils::Ledger as _;
 
